@@ -376,7 +376,7 @@ def validate_events(events_path, workdir, spec="Trace", chunk=4000, jobs=None, e
             e = json.loads(lines[offset + bad - 1])
             reason = re.search(r"Error: (.*?)\n\n", text, re.S)
             out.append({"l": offset + bad, "id": e.get("id"), "i": e.get("i"), "chunk": k,
-                        "j": {"v": "mismatch", "subj": "spec-eval:" + str(e.get("act", {}).get("a")), "owner": "*", "dev": "",
+                        "j": {"v": "mismatch", "subj": "spec-eval:" + str(e["act"].get("a") if isinstance(e.get("act"), dict) else e.get("act")), "owner": "*", "dev": "",
                               "fields": [], "frame": [], "msg": "the recorded state is outside what the specification can evaluate: " +
                               (reason.group(1)[:300] if reason else "TLC evaluation error")}})
             out = [v for v in out if v["l"] <= offset + bad]
